@@ -344,7 +344,28 @@ func ruleNoNegativeZero(w *World, r *RuleResult) {
 				}
 				switch name {
 				case "(*BigInt).updateInner":
-					r.ok(key, w.instrPos(st), "tabled: copies the sign math/big reports (math/big never reports a negative zero)", false)
+					// the sign is math/big's, but math/big can carry neg with an empty magnitude (GobDecode
+					// does not normalise it): the marker must be under a test that the word slice is non-empty
+					nonEmpty := false
+					for _, gd := range guardsAt(b) {
+						bo, isB := gd.Cond.(*ssa.BinOp)
+						if !isB || !gd.Val || bo.Op != token.GTR {
+							continue
+						}
+						k, isK := bo.Y.(*ssa.Const)
+						lc, isCall := bo.X.(*ssa.Call)
+						if !isK || ci(k) != 0 || !isCall {
+							continue
+						}
+						if bi, isBI := lc.Common().Value.(*ssa.Builtin); isBI && bi.Name() == "len" {
+							nonEmpty = true
+						}
+					}
+					if nonEmpty {
+						r.ok(key, w.instrPos(st), "math/big's sign, and only where its word slice is non-empty", true)
+					} else {
+						r.bad(key, w.instrPos(st), "the negative marker copies math/big's neg flag without checking the magnitude: big.Int.GobDecode([]byte{3}) yields neg with an empty magnitude, which math/big treats as zero but this stores as a negative zero (Sign() == -1, \"-0\")")
+					}
 					continue
 				case "(*BigInt).updateInnerFromUint64":
 					r.ok(key, w.instrPos(st), "tabled: neg comes from the *Inline helpers / SetInt64, checked separately", false)
